@@ -1026,6 +1026,38 @@ def l18_l19(prog, ctx):
                     alloc_fail = lit.kind == "truth" and any(x.k == "CallExpr" and x.j.get("callee") in ("econf_newKeyFile_with_options", "malloc", "calloc", "combine_strings") for x in lit.node.walk())
                     if not (mentions_suffix or resolved or alloc_fail) and lit.negated().key() not in set() :
                         extra = (cfg.blocks[b].cond, lit)
+        # the name must be LONGER than the suffix: an entry that consists of the suffix alone (`.conf`) is not a configuration file
+        from sa.dataflow import ReachingDefs as _RD18
+        rd18 = _RD18(f)
+
+        def what_len(e):
+            e0 = e.strip()
+            t = render(e0)
+            if e0.k == "DeclRefExpr" and e0.j.get("dk") == "local":
+                ds = [d for d in rd18.defs if d.var == e0.j["name"] and d.rhs is not None]
+                if len(ds) == 1:
+                    t = render(ds[0].rhs)
+            if "strlen" in t and "d_name" in t:
+                return "name"
+            if "strlen" in t and "suffix" in t:
+                return "suffix"
+            return None
+        strict = None
+        for l in req:
+            if l is None or l.kind != "lt":
+                continue
+            a9, b9 = what_len(l.lhs), what_len(l.rhs)
+            if (a9, b9) == ("suffix", "name") and l.pol:
+                strict = True                   # strlen(suffix) < strlen(name)
+            elif (a9, b9) == ("name", "suffix") and not l.pol:
+                strict = False                  # !(strlen(name) < strlen(suffix)) : equal lengths pass
+                where18 = l.node
+        if strict is False:
+            ctx.fail("L18", "only entries LONGER than the suffix are read", where18.where,
+                     "an entry whose whole name is the suffix (the dot file `.conf`) passes the length test: it is parsed as a drop-in, shown to the callback and "
+                     "merged - a tree that holds nothing else is no longer ECONF_NOFILE", key="suffix-only-name")
+        elif strict:
+            ctx.ok("L18", "only entries LONGER than the suffix are read", g[0].where, "strlen(suffix) < strlen(name) on the way to the read")
         if extra is None:
             ctx.ok("L18", "every entry with the suffix is read", g[0].where, "between the suffix test and the read no other test can send the loop on to the next entry")
         else:
